@@ -40,6 +40,14 @@ Round 6: what runs is what the gates looked at - the constructor of the object `
    adapter classes included (C17-D4/C02-D6 re-applied); the expansion gate rejects two columns re-keyed onto one
    name: a store under a key looked up in a rename table is reachable only over an edge that established
    `key not in <filed so far>` with a raising other side (C17-D1-rekeyed-entries-collision-rejected).
+Round 7: calls of `_run` (and of the helpers of its module) to functions of the package are read by parameter, not by
+   spelling: a leading keyword argument that names the next positional parameter is put into its slot before anything
+   else looks at the call (`_positional_calls`); the classifier behind required_context_keys and the run-time parameter
+   resolver are one first-match decision, found by role through their parameter names, compared with the shared
+   chain extraction of `_chains` (C17-D4-gate-classifier-agrees-with-resolver); in the loop over the blocks of the
+   run-space specification the record of keys seen so far grows only by key sets a raising overlap test has compared
+   with it - every mapping, in the state in which it is remembered - and by all of them
+   (C17-D1-cross-block-keys-rejected).
 """
 from __future__ import annotations
 
@@ -81,9 +89,46 @@ def exec_nodes(g: CFG) -> List:
     return out
 
 
+def _positional_calls(repo: Repo, mod, fn: ast.AST) -> int:
+    """Put the calls of *fn* to functions / classes of the package into one spelling: a leading keyword argument that
+    names the next positional parameter of the (uniquely resolved) target is moved to its position -
+    `parse_pipeline_config(config=config, source_path=p)` reads `parse_pipeline_config(config, source_path=p)`.
+    Only the first keyword is ever moved (and again while that holds), so the evaluation order of the arguments and
+    the binding are exactly what they were; keyword-only parameters, `*args` / `**kw` calls and unresolved or
+    ambiguous targets are left alone.  Every rule below that asks "what is handed over as <parameter>" can then
+    look at the positional slot, whichever way the caller spelled the call.  Returns the number of moved arguments."""
+    from ..engine import enclosing_class
+
+    moved = 0
+    for c in calls_in(fn, include_nested=True):
+        if not c.keywords or c.keywords[0].arg is None or any(isinstance(a, ast.Starred) for a in c.args):
+            continue
+        targets = repo.resolve_call(mod, c)
+        if len(targets) != 1 or not isinstance(targets[0][1], FuncNode):
+            continue
+        node = targets[0][1]
+        if node.args.vararg is not None:
+            continue
+        params = [a.arg for a in node.args.posonlyargs + node.args.args]
+        n_posonly = len(node.args.posonlyargs)
+        if enclosing_class(node) is not None and not any((dotted_name(d) or "").split(".")[-1] == "staticmethod" for d in node.decorator_list):
+            if not params:
+                continue
+            params, n_posonly = params[1:], max(0, n_posonly - 1)
+        while c.keywords and c.keywords[0].arg is not None and n_posonly <= len(c.args) < len(params) and c.keywords[0].arg == params[len(c.args)]:
+            k = c.keywords.pop(0)
+            k.value._parent = c  # type: ignore[attr-defined]
+            c.args.append(k.value)
+            moved += 1
+    return moved
+
+
 def run(repo: Repo, R: Report) -> None:
     mod = repo.module(CLI)
     fn = repo.func(CLI, "_run")
+    for _q, _f in list(mod.defs.items()):
+        if isinstance(_f, FuncNode):
+            _positional_calls(repo, mod, _f)  # _run and the helpers its normal form inlines
     R.assume(
         "constructing Pipeline(...) and the trace driver executes no node (that they create / open no file is decided by C17-D1-preflight-writes-nothing over the resolvable call graph)",
         "calls before the gates whose target is not statically known (classes taken from the execution-component registry: transport_cls(), executor_cls(), orchestrator factories of plug-ins) and file writes that are not visible as such in the call (third-party savers) do not write files",
@@ -362,6 +407,7 @@ def run(repo: Repo, R: Report) -> None:
     finally:
         R.rule_prefix = ""
     inspected_is_executed_rule(repo, R, fn, g, PCFG)
+    gate_classifier_rule(repo, R)
     validation_gate_rule(repo, R)
     compat_test_rule(repo, R)
     runs_share_key_shape_rule(repo, R, fn)
@@ -369,6 +415,7 @@ def run(repo: Repo, R: Report) -> None:
     dry_run_request_rule(repo, R, fn)
     position_merge_rule(repo, R)
     rekeying_collision_rule(repo, R)
+    cross_block_keys_rule(repo, R)
     absence_sentinel_rule(repo, R)
     template_placeholder_rule(repo, R)
     # the expansion gate rejects an unreadable source with the configuration-error exit: every failure of reading a
@@ -681,6 +728,9 @@ def _key_roots(e: Optional[ast.AST]) -> Optional[List[ast.AST]]:
         return None
     if isinstance(e, (ast.Set, ast.List, ast.Tuple)) and not e.elts:
         return []
+    if isinstance(e, (ast.Set, ast.List, ast.Tuple)) and all(isinstance(x, ast.Starred) for x in e.elts):
+        parts = [_key_roots(x.value) for x in e.elts]  # {*a, *b}: the keys of a and of b, as they are
+        return None if any(p is None for p in parts) else [x for p in parts for x in p]
     if isinstance(e, ast.IfExp):
         l, r = _key_roots(e.body), _key_roots(e.orelse)
         return None if l is None or r is None else l + r
@@ -2942,3 +2992,397 @@ def rekeying_collision_rule(repo: Repo, R: Report) -> None:
             R.check(ok, r, mod.rel, qn, norm(st)[:100], f"`{norm(dc)[:70]}` re-keys the entries of `{norm(M)[:40]}` through a lookup table and nothing raises when two of them end under one name (no raising comparison of len(result) with len(source) follows): the later column silently overwrites the earlier one and the invalid run space is expanded and executed", getattr(st, "lineno", 0))
     if n_sites == 0:
         raise AnalysisError("expand_run_space: no place where source columns are re-filed under renamed keys was recognised (rename handling moved out of the expansion?)")
+
+
+# ---------------------------------------------------------------------------------------------
+# D4 (round 7): the classifier behind the missing-key gate and the run-time resolver are one decision
+# ---------------------------------------------------------------------------------------------
+_CHANNEL_PARAMS = {"config": "processor_config", "context": "context", "default": "processor_cls"}
+
+
+def _param_names(f: ast.AST) -> Set[str]:
+    a = f.args
+    return {x.arg for x in list(a.posonlyargs) + list(a.args) + list(a.kwonlyargs)}
+
+
+def gate_classifier_rule(repo: Repo, R: Report) -> None:
+    """`missing = required_external - supplied` is only as good as `required_context_keys`, which the builder fills from
+    the per-parameter classifier (config / context / default / required, a first-match chain over the node's
+    configuration, the keys produced so far and the declared default).  At run time a node obtains the same parameter
+    from the resolver, another first-match chain over (configuration, context, default, KeyError).  The gate stands
+    for the run only if the two are ONE decision: position by position the same channel, consulted under the same
+    condition (the plain presence test), with 'required' where the resolver raises.  If the resolver goes to the
+    context in a case the classifier files under 'config' or 'default' (a configured null, a falsy value ...), the key
+    is not in required_context_keys, `missing` is empty without it being supplied, the CLI starts the run, the nodes
+    in front execute (sink output, trace file) and the node dies with the resolver's KeyError - exit 4 instead of the
+    configuration-error exit with nothing executed.  Both functions are found by their role: the classifier is the
+    function in the call graph of build_pipeline_inspection whose parameters name the node configuration and the
+    key-origin state, resolvers are the functions of the package whose parameters name the node configuration and
+    the live context next to the parameter's name."""
+    from ..engine import qualname_of
+    from ._chains import extract_chain
+
+    r = R.rule("C17-D4-gate-classifier-agrees-with-resolver", "the parameter classifier the required-key analysis uses (reachable from build_pipeline_inspection; parameters name, processor_config, key_origin) and every run-time resolver (parameters name, processor_config, context) are the same first-match decision: position by position the same channel under the plain presence test (name in processor_config / name in context resp. name in key_origin and not deleted / a declared default), the classifier answering 'required' exactly where the resolver raises - so a parameter the node will look up in the context at run time is one the missing-key gate asked for", 1)
+    bmod = repo.module(BUILDER)
+    clo = _closure(repo, [(bmod, repo.func(BUILDER, "build_pipeline_inspection"))])
+    classifiers = [(m, f) for _i, (m, f, _p) in clo.items() if isinstance(f, FuncNode) and {"name", "processor_config", "key_origin"} <= _param_names(f)]
+    resolvers = [(m, f) for m, _qn, f in repo.all_functions() if {"name", "processor_config", "context"} <= _param_names(f) and "key_origin" not in _param_names(f)]
+    # a resolver counts when it decides something: it reads both channels
+    resolvers = [(m, f) for m, f in resolvers if {"processor_config", "context"} <= {x.id for x in ast.walk(f) if isinstance(x, ast.Name) and isinstance(x.ctx, ast.Load)}]
+    # ... in a test of its own (a wrapper that only hands the channels on to the resolver decides nothing)
+    def _decides(f: ast.AST) -> bool:
+        tests = [n.test for n in walk_no_nested(f) if isinstance(n, (ast.If, ast.IfExp, ast.While))] + [n for n in walk_no_nested(f) if isinstance(n, (ast.Compare, ast.BoolOp))]
+        return any(isinstance(x, ast.Name) and x.id in ("processor_config", "context") for t in tests for x in ast.walk(t))
+    resolvers = [(m, f) for m, f in resolvers if _decides(f)]
+    if not classifiers:
+        raise AnalysisError("build_pipeline_inspection: no parameter classifier (name, processor_config, key_origin) in its call graph")
+    if not resolvers:
+        raise AnalysisError("no run-time parameter resolver (name, processor_config, context) found in the package")
+    classifiers.sort(key=lambda t: (t[0].rel, t[1].lineno))
+    resolvers.sort(key=lambda t: (t[0].rel, t[1].lineno))
+    result_of = {"config": "config", "context": "context", "default": "default"}
+
+    def first_reader(f: ast.AST, label: str) -> int:
+        chan = _CHANNEL_PARAMS.get(label.rstrip("?~").split(":")[0])
+        for st in walk_no_nested(f):
+            if isinstance(st, ast.stmt) and st is not f and chan and chan in {x.id for x in ast.walk(st) if isinstance(x, ast.Name)}:
+                return st.lineno
+        return f.lineno
+
+    for cm, cf in classifiers:
+        ci = extract_chain(cf)
+        repo.consulted.add(cm.rel)
+        for rm, rf in resolvers:
+            cr = extract_chain(rf)
+            repo.consulted.add(rm.rel)
+            cq, rq = qualname_of(cf), qualname_of(rf)
+            what, line = "", rf.lineno
+            for i in range(max(len(ci), len(cr))):
+                a = ci[i] if i < len(ci) else None
+                b = cr[i] if i < len(cr) else None
+                if a is None or b is None:
+                    what = f"the classifier {cq} decides in {len(ci)} steps {ci}, the resolver {rq} in {len(cr)} {cr}: one of them consults a channel the other does not know"
+                    break
+                plain = a[0] in ("config", "context", "default", "always") and b[0] in ("config", "context", "default", "always")
+                if a[0] != b[0] or not plain:
+                    odd = b if (b[0] not in ("config", "context", "default", "always") or a[0] in ("config", "context", "default", "always")) else a
+                    whose, of = (rq, rf) if odd is b else (cq, cf)
+                    line = first_reader(of, odd[0])
+                    what = f"step {i + 1}: the classifier {cq} decides on `{a[0]}` (-> '{a[1]}'), the resolver {rq} on `{b[0]}` (-> {b[1]}); `{odd[0]}` in {whose} is not the plain presence test of that channel ('?': the channel is read, but under another condition - the value, its truthiness, `.get(..) is not None`): for a parameter where the two tests differ (e.g. configured as null) the classifier says '{a[1]}' - not required from the context - while the resolver goes on to the next channel and looks the name up in the context; the key is absent from inspection.required_context_keys, `missing` in cli._run stays empty although nobody supplies it, the run starts, the nodes in front execute (sink output, trace file) and the node fails with the resolver's error (exit 4) instead of the pre-flight rejection (exit 3, nothing executed)"
+                    break
+                want = "raise" if a[1] == "required" else result_of.get(a[1], a[1])
+                got = "raise" if b[1].startswith("raise:") else b[1]
+                if want != got:
+                    line = first_reader(rf, b[0])
+                    what = f"step {i + 1} (`{a[0]}`): the classifier {cq} answers '{a[1]}', the resolver {rq} yields {b[1]}: " + ("a parameter the resolver cannot obtain is not reported as required, so the missing-key gate does not ask for it" if got == "raise" else "the value the node receives does not come from the channel the gate accounted for")
+                    break
+            R.check(not what, r, rm.rel, f"{cq} ~ {rq}", f"first-match chains agree: {[x[0] for x in ci]} / {[x[0] for x in cr]}", what, line)
+
+
+# ---------------------------------------------------------------------------------------------
+# D1 (round 7): the expansion gate rejects a key that two blocks supply
+# ---------------------------------------------------------------------------------------------
+_SET_WRAPPERS = {"set", "frozenset", "list", "tuple", "sorted", "bool", "len"}
+
+
+def _empty_set_value(v: Optional[ast.AST]) -> bool:
+    return isinstance(v, ast.Call) and isinstance(v.func, ast.Name) and v.func.id in ("set", "frozenset") and not v.args and not v.keywords
+
+
+def _over_blocks(fn: ast.AST, lp: ast.AST) -> bool:
+    """`for .. in <spec>.blocks` (also through enumerate / list / a local naming it): `blocks` is a field of the
+    run-space specification dataclass, part of the configuration schema."""
+    def reads_blocks(e: ast.AST, depth: int = 0) -> bool:
+        if any(isinstance(x, ast.Attribute) and x.attr == "blocks" for x in ast.walk(e)):
+            return True
+        if depth > 2:
+            return False
+        return any(reads_blocks(v, depth + 1) for x in ast.walk(e) if isinstance(x, ast.Name) for v in assigned_value(fn, x.id))
+    return isinstance(lp, ast.For) and reads_blocks(lp.iter)
+
+
+def cross_block_keys_rule(repo: Repo, R: Report) -> None:
+    """The runs of the blocks of a run space are merged by overwriting (`merged.update(part)`): a key that two blocks
+    supply would silently take the later block's values.  Such a run space is invalid (configuration error, exit 3,
+    nothing executed) - and `_run` can only reject what `expand_run_space` raises for.  So in the loop that collects
+    the per-block run lists, the record of keys seen so far may only grow by key sets that a raising overlap test has
+    compared with it: every mapping whose keys are remembered at the end of an iteration (inline context entries and
+    the columns loaded from the block's source) has to be covered by the test, *as it is when it is remembered* -
+    a test that runs before the source is loaded, or that looks at the inline keys only, lets a source column
+    re-define a key of an earlier block: the expansion succeeds and every run executes with the later value."""
+    from ..engine import mutation_sites, qualname_of
+    from ..normal import nfunc
+
+    r = R.rule("C17-D1-cross-block-keys-rejected", "the expansion gate rejects a run space in which two blocks supply the same key instead of letting the later block overwrite the earlier one: in the loop of expand_run_space that collects the per-block run lists which are merged afterwards, a record of the keys seen so far exists, and every key set it grows by (`seen.update(K)`) is reachable only over the passing edge of a raising overlap test (`seen & K'`, intersection, isdisjoint, `any(k in seen ...)`, a loop of membership tests) whose K' covers every mapping K takes its keys from, in the state it has when it is remembered (same reaching definitions, no store in between)", 1)
+    top = repo.func(RUN_SPACE, "expand_run_space")
+
+    def analyse(nf: ast.AST, qn: str) -> List[tuple]:
+        results: List[tuple] = []
+        g = CFG(nf)
+        raise_ids = {n.id for n in g.nodes if n.kind == "stmt" and isinstance(n.ast, ast.Raise)}
+
+        def single_def(name: str, at: int):
+            defs = reaching_defs(g, name, at)
+            if len(defs) == 1 and defs[0].kind == "stmt" and isinstance(defs[0].ast, (ast.Assign, ast.AnnAssign)):
+                a = defs[0].ast
+                tgts = a.targets if isinstance(a, ast.Assign) else [a.target]
+                if len(tgts) == 1 and isinstance(tgts[0], ast.Name) and a.value is not None:
+                    return defs[0]
+            return None
+
+        mutated: Dict[str, bool] = {}
+
+        def is_mutated(name: str) -> bool:
+            if name not in mutated:
+                mutated[name] = bool(mutation_sites(nf, {name}))
+            return mutated[name]
+
+        def leaves_at(e: Optional[ast.AST], at: int, depth: int = 0) -> Optional[Set[Tuple[str, frozenset]]]:
+            """The mappings *e* takes its keys from, each with the definitions of it that reach node *at*."""
+            rs = _key_roots(e)
+            if rs is None:
+                return None
+            out: Set[Tuple[str, frozenset]] = set()
+            for x in rs:
+                if not isinstance(x, ast.Name):
+                    out.add((ast.unparse(x), frozenset()))
+                    continue
+                d = single_def(x.id, at) if depth < 6 and not is_mutated(x.id) else None
+                sub = leaves_at(d.ast.value, d.id, depth + 1) if d is not None and not isinstance(d.ast.value, (ast.DictComp,)) else None
+                if sub is not None and d is not None and (_key_roots(d.ast.value) or isinstance(d.ast.value, (ast.Dict, ast.Set, ast.Call))):
+                    out |= sub
+                else:
+                    out.add((x.id, frozenset(n.id for n in reaching_defs(g, x.id, at))))
+            return out
+
+        n_loops = 0
+        for lp in [n for n in walk_no_nested(nf) if isinstance(n, ast.For)]:
+            heads = g.nodes_for(lp)
+            if len(heads) != 1:
+                continue
+            head = heads[0]
+            inside = {id(x) for x in ast.walk(lp)}
+            if not _over_blocks(nf, lp):
+                continue
+            n_loops += 1
+            body_entry = [t for t, lab in g.succ[head] if lab == "T"]
+            # records of keys seen so far: empty sets created outside the loop that grow inside it
+            grows: List[Tuple[str, ast.AST, ast.AST]] = []  # (record, statement, key-set expression)
+            for n in walk_no_nested(lp):
+                S, E = None, None
+                if isinstance(n, ast.Call) and isinstance(n.func, ast.Attribute) and n.func.attr in ("update", "add") and isinstance(n.func.value, ast.Name) and len(n.args) == 1:
+                    S, E = n.func.value.id, n.args[0]
+                    if n.func.attr == "add":
+                        inner = next((a for a in _anc(n) if isinstance(a, ast.For)), None)
+                        if inner is None or inner is lp or not (isinstance(inner.target, ast.Name) and isinstance(E, ast.Name) and E.id == inner.target.id):
+                            continue
+                        E = inner.iter
+                        n = inner
+                elif isinstance(n, ast.AugAssign) and isinstance(n.op, ast.BitOr) and isinstance(n.target, ast.Name):
+                    S, E = n.target.id, n.value
+                elif isinstance(n, ast.Assign) and len(n.targets) == 1 and isinstance(n.targets[0], ast.Name) and isinstance(n.value, ast.BinOp) and isinstance(n.value.op, ast.BitOr) and isinstance(n.value.left, ast.Name) and n.value.left.id == n.targets[0].id:
+                    S, E = n.targets[0].id, n.value.right
+                elif isinstance(n, ast.Assign) and len(n.targets) == 1 and isinstance(n.targets[0], ast.Name) and isinstance(n.value, ast.Call) and isinstance(n.value.func, ast.Attribute) and n.value.func.attr == "union" and isinstance(n.value.func.value, ast.Name) and n.value.func.value.id == n.targets[0].id and len(n.value.args) == 1:
+                    S, E = n.targets[0].id, n.value.args[0]
+                if S is None:
+                    continue
+                outer_defs = [a for a in walk_no_nested(nf) if id(a) not in inside and isinstance(a, (ast.Assign, ast.AnnAssign)) and any(isinstance(t, ast.Name) and t.id == S for t in (a.targets if isinstance(a, ast.Assign) else [a.target]))]
+                if outer_defs and all(_empty_set_value(a.value) or (isinstance(a.value, ast.Set) and not a.value.elts) for a in outer_defs):
+                    grows.append((S, n if isinstance(n, ast.stmt) else stmt_of(n), E))
+            if not grows:
+                results.append((False, RUN_SPACE, qn, f"for {norm(lp.target)} in {norm(lp.iter)[:60]}: <record of the keys seen so far>", f"the loop expands the blocks of the run space one by one and the per-block run lists are merged afterwards by overwriting (`.update(...)` / product), but no record of the keys of earlier blocks (an empty set created before the loop that grows by each block's keys) is kept and compared: a key that two blocks supply is not a configuration error any more - the later block's value silently wins, expand_run_space succeeds, `_run` never reaches its `return EXIT_CONFIG_ERROR` for the invalid run space and every run executes (sink output, trace files, exit 0)", lp.lineno, None))
+                continue
+            for S, ust, E in grows:
+                uids = g.nodes_for(ust)
+                if not uids:
+                    raise AnalysisError(f"{qn}: `{norm(ust)[:60]}` not found in the control-flow graph")
+                uid = uids[0]
+                need = leaves_at(E, uid)
+                if need is None:
+                    raise AnalysisError(f"{qn}: which mappings `{norm(E)[:60]}` takes its keys from was not recognised")
+
+                def is_S(e: ast.AST) -> bool:
+                    if isinstance(e, ast.Call) and isinstance(e.func, ast.Name) and e.func.id in ("set", "frozenset") and len(e.args) == 1 and not e.keywords:
+                        e = e.args[0]
+                    return isinstance(e, ast.Name) and e.id == S
+
+                def overlap_of(e: ast.AST, at: int, depth: int = 0) -> Optional[Tuple[bool, List[Tuple[ast.AST, int]]]]:
+                    """(a truthy value means 'some key is already recorded', [(compared key set, where it is evaluated)])."""
+                    if depth > 5:
+                        return None
+                    if isinstance(e, ast.Call) and isinstance(e.func, ast.Name) and e.func.id in _SET_WRAPPERS and len(e.args) == 1 and not e.keywords:
+                        return overlap_of(e.args[0], at, depth + 1)
+                    if isinstance(e, ast.Compare) and len(e.ops) == 1 and isinstance(e.comparators[0], ast.Constant) and isinstance(e.comparators[0].value, int) and isinstance(e.left, ast.Call) and call_name(e.left) == "len":
+                        c, op = e.comparators[0].value, e.ops[0]
+                        pos = (isinstance(op, ast.Gt) and c == 0) or (isinstance(op, ast.NotEq) and c == 0) or (isinstance(op, ast.GtE) and c == 1)
+                        neg = (isinstance(op, ast.Eq) and c == 0) or (isinstance(op, ast.Lt) and c == 1) or (isinstance(op, ast.LtE) and c == 0)
+                        sub = overlap_of(e.left, at, depth + 1) if (pos or neg) else None
+                        return None if sub is None else (sub[0] if pos else not sub[0], sub[1])
+                    if isinstance(e, ast.Name):
+                        d = single_def(e.id, at)
+                        return overlap_of(d.ast.value, d.id, depth + 1) if d is not None else None
+                    if isinstance(e, ast.Call) and isinstance(e.func, ast.Attribute) and e.func.attr in ("intersection", "isdisjoint") and len(e.args) == 1 and not e.keywords:
+                        a, b = e.func.value, e.args[0]
+                        X = b if is_S(a) else a if is_S(b) else None
+                        return None if X is None else (e.func.attr == "intersection", [(X, at)])
+                    if isinstance(e, ast.BinOp) and isinstance(e.op, ast.BitAnd):
+                        X = e.right if is_S(e.left) else e.left if is_S(e.right) else None
+                        return None if X is None else (True, [(X, at)])
+                    parts = [e.left, e.right] if isinstance(e, ast.BinOp) and isinstance(e.op, (ast.BitOr, ast.Add)) else [e.func.value, *e.args] if isinstance(e, ast.Call) and isinstance(e.func, ast.Attribute) and e.func.attr == "union" and e.args and not e.keywords else None
+                    if parts is not None:
+                        # the found duplicates of several key sets put together: empty iff none of them overlaps
+                        subs = [overlap_of(x, at, depth + 1) for x in parts]
+                        if all(x is not None and x[0] for x in subs):
+                            return (True, [y for x in subs for y in x[1]])
+                        return None
+                    comp = e.args[0] if isinstance(e, ast.Call) and call_name(e) == "any" and len(e.args) == 1 else e
+                    if isinstance(comp, (ast.ListComp, ast.SetComp, ast.GeneratorExp)) and len(comp.generators) == 1 and isinstance(comp.generators[0].target, ast.Name):
+                        gen, k = comp.generators[0], comp.generators[0].target.id
+                        def member(t: ast.AST) -> bool:
+                            return isinstance(t, ast.Compare) and len(t.ops) == 1 and isinstance(t.ops[0], ast.In) and isinstance(t.left, ast.Name) and t.left.id == k and is_S(t.comparators[0])
+                        if comp is not e and not gen.ifs and member(comp.elt):
+                            return (True, [(gen.iter, at)])  # any(k in S for k in X)
+                        if len(gen.ifs) == 1 and member(gen.ifs[0]) and (comp is not e or (isinstance(comp.elt, ast.Name) and comp.elt.id == k)):
+                            return (True, [(gen.iter, at)])  # [k for k in X if k in S]
+                    return None
+
+                def covered_by(ov: Tuple[bool, List[Tuple[ast.AST, int]]]) -> Set[Tuple[str, frozenset]]:
+                    out: Set[Tuple[str, frozenset]] = set()
+                    for X, at in ov[1]:
+                        lv = leaves_at(X, at)
+                        if lv is not None:
+                            out |= lv
+                    return out
+
+                guards: List[Tuple[int, str, Set[Tuple[str, frozenset]], Set[int]]] = []  # (node, passing edge, covered leaves, nodes after it)
+                loop_guards: List[Tuple[int, Set[Tuple[str, frozenset]]]] = []
+                weak: List[str] = []
+                seen_tested: Set[str] = set()
+                tested_all: Set[Tuple[str, frozenset]] = set()
+                for n in g.nodes:
+                    if n.kind not in ("if", "while") or n.part is None or n.ast is None or id(n.ast) not in inside:
+                        continue
+                    any_ov: List[Set[Tuple[str, frozenset]]] = []
+
+                    def atom_any(e: ast.AST, n=n, any_ov=any_ov) -> Optional[bool]:
+                        ov = overlap_of(e, n.id)
+                        if ov is None:
+                            return None
+                        any_ov.append(covered_by(ov))
+                        return not ov[0]
+
+                    if not edges_guaranteeing(n.part, atom_any) or not any_ov:
+                        # membership test inside a loop over the key set: for k in X: if k in S: raise
+                        t = n.part
+                        neg = isinstance(t, ast.UnaryOp) and isinstance(t.op, ast.Not)
+                        t = t.operand if neg else t
+                        inner = next((a for a in _anc(n.ast) if isinstance(a, ast.For)), None)
+                        if inner is not None and inner is not lp and isinstance(inner.target, ast.Name) and isinstance(t, ast.Compare) and len(t.ops) == 1 and isinstance(t.ops[0], (ast.In, ast.NotIn)) and isinstance(t.left, ast.Name) and t.left.id == inner.target.id and is_S(t.comparators[0]) and inner.body and inner.body[0] is n.ast and not any(isinstance(b, ast.Break) for b in walk_no_nested(inner)):
+                            hit_lab = "T" if (isinstance(t.ops[0], ast.In) != neg) else "F"
+                            side = g.reach([x for x, l in g.succ[n.id] if l == hit_lab])
+                            ih = g.nodes_for(inner)
+                            if ih and g.ret_exit not in side and ih[0] not in side and uid not in side and (side.keys() & raise_ids or g.exc_exit in side):
+                                lv = leaves_at(inner.iter, ih[0])
+                                if lv is not None:
+                                    loop_guards.append((ih[0], lv))
+                                    if g.dominated_by_node(uid, ih[0]):
+                                        tested_all |= lv
+                        continue
+                    for lv in any_ov:
+                        seen_tested |= {l[0] for l in lv}
+                    n_before = len(guards)
+                    sides: Dict[str, Tuple[bool, Set[int]]] = {}
+                    for leaf in need:
+                        # the proposition "no key of THIS mapping is recorded yet", decided per mapping: a test that is
+                        # false whenever this mapping overlaps establishes it on its other edge
+                        def atom(e: ast.AST, n=n, leaf=leaf) -> Optional[bool]:
+                            ov = overlap_of(e, n.id)
+                            if ov is None or leaf not in covered_by(ov):
+                                return None
+                            return not ov[0]
+
+                        for lab in edges_guaranteeing(n.part, atom):
+                            if lab not in sides:
+                                other = [x for x, l in g.succ[n.id] if l in ("T", "F") and l != lab]
+                                side = g.reach(other)
+                                rejecting = bool(other) and head not in side and g.ret_exit not in side and uid not in side and bool(side.keys() & raise_ids or g.exc_exit in side)
+                                sides[lab] = (rejecting, set(g.reach([x for x, l in g.succ[n.id] if l == lab], blocked={uid, head})) if rejecting else set())
+                                if not rejecting:
+                                    weak.append(f"`{norm(n.part)[:60]}` (line {n.line}) does not end in a raise when a key is already recorded")
+                            if sides[lab][0]:
+                                guards.append((n.id, lab, {leaf}, sides[lab][1]))
+                    if len(guards) > n_before:
+                        for lv in any_ov:
+                            tested_all |= lv
+                # stores into a covered mapping between the test and the moment it is remembered un-cover it
+                def stored_after(name: str, after: Set[int]) -> bool:
+                    for site, _root in mutation_sites(nf, {name}):
+                        st = site if isinstance(site, ast.stmt) else stmt_of(site)
+                        if any(i in after for i in g.nodes_for(st)):
+                            return True
+                    return False
+
+                loose: List[str] = []
+                path = None
+                for leaf in sorted(need, key=lambda l: l[0]):
+                    name = leaf[0]
+                    if any(leaf in lv and g.dominated_by_node(uid, ih) and not stored_after(name, set(g.reach([ih], blocked={uid, head}))) for ih, lv in loop_guards):
+                        continue
+                    blocked_edges = {(nid, lab) for nid, lab, lv, after in guards if leaf in lv and not stored_after(name, after)}
+                    seen = g.reach(body_entry, blocked_edges=blocked_edges, blocked={head})
+                    if uid in seen:
+                        loose.append(name)
+                        path = path or g.path_to(seen, uid)
+                if loose:
+                    tested = sorted(seen_tested | {l[0] for _h, lv in loop_guards for l in lv})
+                    detail = (f"; the overlap test(s) on `{S}` cover {tested}" + (" - the same name, but with other definitions reaching the test than reach the statement that remembers the keys (the test runs before the mapping has its final value)" if set(loose) & set(tested) else "")) if tested else f"; no raising overlap test on `{S}` was found" + ("; " + "; ".join(dict.fromkeys(weak)) if weak else "")
+                    results.append((False, RUN_SPACE, qn, norm(ust)[:100], f"`{norm(ust)[:60]}` remembers the keys of {sorted(l[0] for l in need)} as supplied by this block, but the keys of `{'`, `'.join(loose)}` reach it without a raising test having compared them with the keys of the earlier blocks (`{S}`){detail}: a later block that re-defines, through `{loose[0]}`, a key an earlier block already supplies is no longer a configuration error - the block run lists are merged by overwriting, the later value silently wins, expand_run_space succeeds, `_run` never reaches its `return EXIT_CONFIG_ERROR` for the invalid run space and every run executes (sink output, trace files, exit 0); --run-space-dry-run prints the plan as valid", getattr(ust, "lineno", lp.lineno), path))
+                else:
+                    results.append((True, RUN_SPACE, qn, norm(ust)[:100], "", getattr(ust, "lineno", lp.lineno)))
+                # what is compared is what the block supplies - all of it has to be remembered for the blocks that follow
+                forgotten = sorted({l[0] for l in tested_all if l not in need} - {l[0] for l in need})
+                if forgotten and not loose:
+                    results.append((False, RUN_SPACE, qn, norm(ust)[:100] + " (complete)", f"the raising overlap test compares the keys of {sorted(seen_tested)} with the keys of the earlier blocks, but `{norm(ust)[:60]}` records only those of {sorted(l[0] for l in need)}: the keys this block takes from `{'`, `'.join(forgotten)}` are never remembered, so a LATER block that supplies one of them again passes its own test - the run space with a key defined by two blocks is expanded (later block wins), `_run` never reaches `return EXIT_CONFIG_ERROR` and every run executes", getattr(ust, "lineno", lp.lineno), None))
+        return results
+
+    # every function of the module that expand_run_space reaches and that walks the blocks of the specification
+    mod = repo.module(RUN_SPACE)
+    funcs: List[ast.AST] = []
+    todo = [top]
+    while todo:
+        f = todo.pop()
+        if any(f is x for x in funcs):
+            continue
+        funcs.append(f)
+        for c in calls_in(f, include_nested=True):
+            for m, node in repo.resolve_call(mod, c):
+                if m.rel == RUN_SPACE and isinstance(node, FuncNode):
+                    todo.append(node)
+    n_sites = 0
+    for f in sorted(funcs, key=lambda x: x.lineno):
+        if not any(isinstance(lp, ast.For) and _over_blocks(f, lp) for lp in walk_no_nested(f)):
+            continue
+        qn = qualname_of(f)
+        # the function as written first; its normal form (private helpers inlined: a test moved into a helper) when
+        # that does not discharge everything
+        try:
+            results = analyse(f, qn)
+        except AnalysisError:
+            results = [(False,)]
+        if not all(x[0] for x in results):
+            try:
+                nf = nfunc(repo, RUN_SPACE, qn, consts=False)
+            except Exception:
+                nf = None
+            if nf is not None:
+                results = analyse(nf, qn)
+            elif results == [(False,)]:
+                results = analyse(f, qn)
+        for ok, *rest in results:
+            n_sites += 1
+            if ok:
+                R.ok(r, *rest)
+            else:
+                R.violation(r, *rest)
+    if n_sites == 0:
+        raise AnalysisError("expand_run_space: no loop over the blocks of the run-space specification (`for .. in <spec>.blocks`) found in it or in the functions of its module it calls")
